@@ -238,6 +238,23 @@ def det_runs(ctx, d, texts, files, opts, idx, use_valgrind=True):
     return res
 
 
+def vg_only_set_cxer_memcmp(summary):
+    """finding C12-set-cxer-map-uninit, as narrow as its cause: every error memcheck reports is the comparison of
+    the two tag maps in asn1c_lang_C_type_SET_def (memcmp/bcmp called from there, or the branch on its result)"""
+    blocks = [b for b in re.split(r"\n\s*\n", summary) if "at 0x" in b]
+    if not blocks:
+        return False
+    for b in blocks:
+        frames = re.findall(r"(?:at|by) 0x[0-9A-F]+: (\S+)", b)
+        if not frames:
+            return False
+        if frames[0] in ("bcmp", "memcmp", "__memcmp_avx2_movbe", "__memcmp_sse4_1"):
+            frames = frames[1:]
+        if not frames or frames[0] != "asn1c_lang_C_type_SET_def":
+            return False
+    return True
+
+
 def report_det(run, rep, r, what):
     """turns a det_runs result into violations / counters; returns True when quiet"""
     ok = True
@@ -251,9 +268,13 @@ def report_det(run, rep, r, what):
     if "vg" in r:
         run.count("valgrind_runs" if r["vg"][0] != 999 else "valgrind_timeouts")
         if r["vg"][0] == VG_RC:
-            ok = False
-            run.violation("oracle:uninitialised-read", dict(rep, what="valgrind memcheck reports an error in asn1c (%s)" % what,
-                          valgrind=r["vg"][1]))
+            if vg_only_set_cxer_memcmp(r["vg"][1]) and not bad:
+                run.known_finding("C12-set-cxer-map-uninit", what)
+                run.count("valgrind_known:C12-set-cxer-map-uninit")
+            else:
+                ok = False
+                run.violation("oracle:uninitialised-read", dict(rep, what="valgrind memcheck reports an error in asn1c (%s)" % what,
+                              valgrind=r["vg"][1]))
     return ok
 
 
@@ -683,6 +704,9 @@ def main(tier):
         g = g_big if (not quick and i % 3 == 0) else (g_big if i % 5 == 0 else g_small)
         m = g.module("Mod%d" % i)
         singles.append((m, G.render(m, rng), "plain"))
+    # directed boundary cases of the value sub-language: the same in every run, whatever the seed
+    for m in G.value_boundary_modules():
+        singles.append((m, G.render(m, rng), "value-boundary"))
     # dedicated witnesses of the recorded findings (kept in every run, so that a fix shows up)
     nw = 4 if quick else 20
     made = 0
@@ -712,6 +736,8 @@ def main(tier):
         forced = None
         if i % 3 == 0:     # constraint-table coverage in every run, whatever the seed
             forced = ["alphabet", "alphabet"] + [rng.choice(G.RICH_BLOCKS) for _ in range(rng.range(0, 3))]
+        if i % 3 == 1:     # value notation coverage (hstring/bstring/braced values/REAL) in every run
+            forced = ["values"] + [rng.choice(G.RICH_BLOCKS) for _ in range(rng.range(0, 3))]
         m = R.module("Rich%d" % i, pfx="R", blocks=forced)
         opts = OPTION_SETS[i % len(OPTION_SETS)] if i < 2 * len(OPTION_SETS) else rng.choice(OPTION_SETS)
         extras = {0: ["dforms"], 4: ["dupfile"]}.get(i % 9, [])
